@@ -51,8 +51,10 @@ RULE = (
     "spectra, and noisy spectra fitted under user constraint expressions / variables whose dictionaries are shared by the serial "
     "reference and its repeat and must come back unmodified), perform_zhit with 'auto' options (ideal R, C, Q, L spectra = exact ties across smoothing/interpolation; noisy mock spectra; "
     "noisy spectra with a narrow window centred on a measured frequency = exact ties across windows only), "
-    "evaluate_log_F_ext(num_F_ext_evaluations in {10,20}) + suggest_num_RC for the six linear tests, KK 'cnls' over a "
-    "num_RC range (explicit and automatically limited), perform_kramers_kronig_test (thorough), generate_mock_data "
+    "evaluate_log_F_ext(num_F_ext_evaluations in {10,20,100}) + suggest_num_RC for the six linear tests, KK 'cnls' over an "
+    "explicit num_RC range, and with the AUTOMATIC num_RC range on 19-21-point spectra (evaluate_log_F_ext and "
+    "perform_exploratory_kramers_kronig_tests: the list of num_RC values tested, every returned result and the suggestion are "
+    "compared; schedules delay exactly the first submitted tasks num_RC=2..6 so that later results are ready first), perform_kramers_kronig_test (thorough), generate_mock_data "
     "(all predefined identifiers + CDCs, seed pairs incl. pairs that agree in their low 8/16 bits). Each analysis case is "
     "executed serially (reference, repeat, other global-RNG state), with num_procs in 2..16 under delay schedules "
     "{none, reverse, rotate, alternate, random} injected around the re-bound pool workers, and through "
@@ -320,6 +322,47 @@ def _case_kkext(rng, tier, auto=False, nev=None):
     return c
 
 
+def _autolimit_runs(rng, tier):
+    """run list for the cnls cases with the AUTOMATIC num_RC range.  The consuming loop in _use_cnls decides when to
+    stop from the results received so far (threshold = min over the first five, stop once the last five are below
+    it), so the schedules delay exactly the first submitted tasks (num_RC = 2..6): the pool then delivers later
+    results first unless the library consumes them in submission order."""
+    A = int(rng.integers(1, 2**31))
+    runs = [{"tag": "ref", "P": 1, "sched": None, "gseed": A}]
+    if tier == "thorough":
+        runs.append({"tag": "repeat", "P": 1, "sched": None, "gseed": A})
+    pooled = [(8, "head", 5), (16, "reverse", 0), (4, "head", 2), (7, "random", 0)]
+    if tier == "thorough":
+        pooled += [(16, "head", 5), (3, "head", 1), (12, "rotate", 0), (5, "alternate", 0), (2, "none", 0)]
+    for P, mode, n in pooled:
+        sched = {"mode": mode, "head_n": n, "salt": int(rng.integers(0, 2**31)), "k": 0.5, "pre": 1.0, "max_ms": dict(MAX_MS)}
+        runs.append({"tag": "pool" if mode == "none" else "sched", "P": P, "sched": sched, "gseed": A})
+    return runs
+
+
+AUTOLIMIT_SPECS = [
+    # short spectra on which the automatic limiter really stops before 2 * n - 5 (pilot: noise >= 0.2 %)
+    ("CIRCUIT_1", {"num_per_decade": 5, "log_max_f": 4.0, "log_min_f": 0.0}),
+    (MOCK_CDCS[0], {"num_per_decade": 5, "log_max_f": 4.0, "log_min_f": 0.0}),
+    (MOCK_CDCS[0], {"num_per_decade": 6, "log_max_f": 4.0, "log_min_f": 1.0}),
+]
+
+
+def _case_cnls_auto(rng, tier, auto=False):
+    """KK cnls with the automatically determined num_RC range (num_RCs=None / num_RC=0)."""
+    ident, kw = AUTOLIMIT_SPECS[int(rng.integers(0, len(AUTOLIMIT_SPECS)))]
+    kw = dict(kw, noise=float(rng.choice([0.2, 0.5])), seed=int(rng.integers(0, 2**32)))
+    npts = int(round((kw["log_max_f"] - kw["log_min_f"]) * kw["num_per_decade"])) + 1
+    c = {"kind": "kkauto" if auto else "cnls", "first": "cnls-autolimit", "spec": {"mock": ident, "kw": kw}, "npts": npts, "stage": "cnls", "autolimit": True}
+    if auto:
+        c["opts"] = {"test": "cnls", "num_F_ext_evaluations": 0, "admittance": False, "timeout": 600}
+    else:
+        c["opts"] = {"test": "cnls", "num_RCs": None, "num_F_ext_evaluations": 0, "log_F_ext": float(rng.choice([0.0, 0.0, 0.2])), "admittance": False, "max_nfev": 0, "timeout": 600}
+    c["cell"] = f"cnls/auto/{'kk' if auto else 'ext'}"
+    c["runs"] = _autolimit_runs(rng, tier)
+    return c
+
+
 def _case_cnls(rng, tier, autolimit=False):
     c = {"kind": "cnls", "first": "mock"}
     spec = _mock_spec(rng, ppd_choices=(3, 4), idents=["CIRCUIT_1", "CIRCUIT_2", "CIRCUIT_5", MOCK_CDCS[0], MOCK_CDCS[2]])
@@ -417,7 +460,7 @@ def gen_cases(tier, seed):
             (_case_kkext_cnls, ()), (_case_kkext, ()), (_case_zhit, ("W", "ffa")),
             (_case_zhit, ("W", "ffa")), (_case_zhit, ("W", "afa")),
             (_case_fit, ("constrained",)), (_case_fit, ("constrained",)),
-            (_case_kkext, (False, 100)),
+            (_case_kkext, (False, 100)), (_case_cnls_auto, ()),
         ]
     else:
         plan = []
@@ -435,12 +478,12 @@ def gen_cases(tier, seed):
         plan += [(_case_zhit, ("W", w)) for w in ("ffa", "ffa", "afa", "faa", "aaa", "ffa")]
         plan += [(_case_fit, ("constrained",))] * 5
         plan += [(_case_kkext, (False, 100))] * 3 + [(_case_kkext, (False, 50))]
-        plan += [(_case_cnls, (True,)), (_case_kkext_cnls, ()), (_case_mock, ()), (_case_mock, ())]
+        plan += [(_case_cnls_auto, ()), (_case_cnls_auto, ()), (_case_cnls_auto, (True,)), (_case_kkext_cnls, ()), (_case_mock, ()), (_case_mock, ())]
     for fn, a in plan:
         add(fn, *a)
     if tier == "quick":
         # the runner deals cases round-robin over SHARDS shards: order them so that the estimated cost is balanced
-        cost = {"zhit": 12, "fit": 14, "kkext": 12, "cnls": 14, "kkext-cnls": 24, "mock": 1}
+        cost = {"zhit": 12, "fit": 14, "kkext": 12, "cnls": 14, "kkext-cnls": 24, "mock": 1, "kkauto": 24}
         bins = [[] for _ in range(SHARDS)]
         for c in sorted(cases, key=lambda c: -cost[c["kind"]]):
             ok = [b for b in bins if len(b) < -(-len(cases) // SHARDS)]
@@ -548,6 +591,19 @@ def _call(case, data, P, run=None):
             "impedances": _arr(r.impedances),
             "residuals": _arr(r.residuals),
         }
+    if kind == "kkauto" and case.get("autolimit"):
+        # the public wrapper that also returns every test that was performed (perform_kramers_kronig_test only returns
+        # the suggested one): the LIST of automatically chosen num_RC values is part of what is compared
+        from pyimpspec.analysis.kramers_kronig import perform_exploratory_kramers_kronig_tests
+
+        tests, sug = perform_exploratory_kramers_kronig_tests(data, num_procs=P, **o)
+        return {"num_RCs": [[int(t.num_RC) for t in tests]], "suggested_num_RC": [int(sug[0].num_RC), int(sug[2]), int(sug[3])], "admittance": bool(sug[0].admittance)}, {
+            "pseudo_chisqr": _arr([t.pseudo_chisqr for t in tests]),
+            "impedances": np.concatenate([_arr(t.impedances) for t in tests]),
+            "residuals": np.concatenate([_arr(t.residuals) for t in tests]),
+            "suggest.scores": _arr([v for _, v in sorted(sug[1].items())]),
+            "log_F_ext": _arr([t.get_log_F_ext() for t in tests]),
+        }
     if kind == "kkauto":
         r = pyimpspec.perform_kramers_kronig_test(data, num_procs=P, **o)
         return {"num_RC": int(r.num_RC), "admittance": bool(r.admittance), "test": r.test, "circuit": r.circuit.to_string()}, {
@@ -569,7 +625,7 @@ def _call(case, data, P, run=None):
         "impedances": np.concatenate([_arr(t.impedances) for _, tests, _ in res for t in tests] or [np.zeros(0)]),
         "top.residuals": np.concatenate([_arr(t.residuals) for t in res[0][1]] or [np.zeros(0)]),
     }
-    if kind in ("kkext", "kkext-cnls"):
+    if kind in ("kkext", "kkext-cnls") or case.get("autolimit"):
         from pyimpspec.analysis.kramers_kronig import suggest_num_RC
 
         # the winner of the search = best extension + the number of RC elements suggested for it (default methods).
@@ -795,7 +851,7 @@ def run_case(case):
 
 
 def _run_analysis(case, kind, tmp):
-    stage = MAIN_STAGE[kind]
+    stage = case.get("stage") or MAIN_STAGE[kind]
     stats, maxobs, viol = {}, {}, []
     _LIVE.clear()
     data = _dataset(case)
@@ -908,6 +964,14 @@ def _run_analysis(case, kind, tmp):
                     }
                 )
     stats[f"{kind}.cases"] = 1
+    stopped_early = False
+    if case.get("autolimit"):
+        stats["cnls.autolimit.cases"] = 1
+        if ref["outcome"] == "ok":
+            tested = ref["ident"]["num_RCs"][0]
+            stopped_early = bool(tested) and tested[-1] < 2 * int(case["npts"]) - 5
+            stats["cnls.autolimit.reference_stopped_before_max_num_RC"] = int(stopped_early)
+            maxobs["cnls.autolimit.num_RC_values_tested"] = float(len(tested))
     if ref["outcome"] != "ok":
         stats[f"{kind}.reference_raised:{ref['exc']}"] = 1
     if ties > 1:
@@ -943,7 +1007,7 @@ def _run_analysis(case, kind, tmp):
             "runs": [{"tag": r["tag"], "P": r["P"], "mode": (r.get("sched") or {}).get("mode"), "t": round(x["t"], 2)} for r, x in zip(runs, results)],
             "fanout": fanout, "distinct_orders": len(orders), "worker_pids": len(pids), "tied_with_best": ties, "windows_tied_with_best": wties,
         },
-        "agg": {"kind": kind, "inconclusive": incon, "ties": ties, "wties": wties, "orders": len(orders), "fanout": fanout, "ref_ok": ref["outcome"] == "ok", "src": case.get("src", "mock")},
+        "agg": {"kind": kind, "autolimit": bool(case.get("autolimit")), "stopped_early": stopped_early, "inconclusive": incon, "ties": ties, "wties": wties, "orders": len(orders), "fanout": fanout, "ref_ok": ref["outcome"] == "ok", "src": case.get("src", "mock")},
     }
 
 
@@ -972,6 +1036,10 @@ def finalize(agg):
             inconclusive.append(f"no conclusive {kind} case: " + "; ".join(a["inconclusive"] for a in cs if a.get("inconclusive")))
         elif sum(a.get("orders", 0) for a in cs) < 3:
             inconclusive.append(f"{kind}: fewer than 3 distinct completion orders observed in total")
+    al = [a for a in agg["aggs"] if a and a.get("autolimit") and a.get("ref_ok") and not a.get("inconclusive")]
+    info["cnls_autolimit"] = {"conclusive_cases": len(al), "reference_stopped_before_max_num_RC": sum(1 for a in al if a.get("stopped_early"))}
+    if not al:
+        inconclusive.append("cnls: no conclusive case with the automatically limited num_RC range (the early-stopping consumer loop was not exercised)")
     for kind in ("fit", "zhit"):
         if info[kind]["cases_with_exact_tie"] == 0:
             inconclusive.append(f"{kind}: no case in which several candidates tied exactly for the best pseudo chi-squared (tie scenario not exercised)")
